@@ -63,7 +63,10 @@ def oracle(g, env, inp, opts, has_ignore):
     if pa[0] == "div" or se[0] == "div" or plain[0] == "div":
         return None
     if (pa[0] == "ok") != (se[0] == "ok"):
-        bad.append(("parse_all-vs-StringEnd" + (":ignore" if has_ignore else ""),
+        # F-08d: `expr + StringEnd()` wraps expr in an And that pre-skips whitespace with the DEFAULT whitespace set when expr's own
+        # flag says "skips" - an Or / MatchFirst whose alternative begins with a nested White then never sees the blanks
+        white = (not has_ignore) and "('white'," in repr(g) and se[0] == "err" and pa[0] == "ok"
+        bad.append(("parse_all-vs-StringEnd" + (":ignore" if has_ignore else ":nested-white" if white else ""),
                     "parse_string(parse_all=True) -> %r but (expr + StringEnd()).parse_string -> %r" % (pa, se)))
     elif pa[0] == "ok" and pa[1] != plain[1]:
         bad.append(("parse_all-tokens", "tokens differ: parse_all %r, plain parse %r" % (pa[1], plain[1])))
